@@ -17,7 +17,7 @@ func init() {
 			"Node side: the node value stored by set() is the one whose accumulate() the parent is told (push, pull, merge, updateAccumulation); an emptied node leaves its parent under its own key and is deleted only when the left sibling inheriting its range has the same parent; merges only under one parent and within the fan-out; the 8-bit split position cannot wrap; split/merge bounds; unknown children fail loudly.",
 		NotCovered:  []string{"equivalence with a sorted map over operation sequences as such (necessary conditions only)", "iteration order", "all fan-out settings as values"},
 		Assumptions: []string{"KV store iterators return keys in byte order (parent()/leftSibling()/rightSibling() rely on it)"},
-		MinObl:      50,
+		MinObl:      53,
 		Run:         runC16,
 	})
 }
@@ -112,6 +112,9 @@ func runC16(c *rules.Ctx) {
 	c.OnlyWhen(N+"pull", "sumtree.ptr.delete[0=ptr]", "not(gt(len(sumtree.Node.delete(_,_).Children),0))", "…and only when it has no child left")
 	c.OnlyWhen(N+"pull", "sumtree.ptr.delete[0={RIGHT}]", "bytes.Equal(sumtree.ptr.parent({LEFT}).key, sumtree.ptr.parent({RIGHT}).key) & lt(add(len(sumtree.ptr.node({LEFT}).Children),len(sumtree.ptr.node({RIGHT}).Children)),ptr.tree.m)", "siblings are merged only under one parent and when the merged node fits")
 	c.CallArg(N+"pull", "sumtree.ptr.set[0={LEFT}]", 1, "sumtree.Node.merge(sumtree.ptr.node({LEFT}), sumtree.ptr.node({RIGHT}))", "the merge keeps the left node's children followed by the right node's")
+	c.NeverAfter(N+"pull", "sumtree.ptr.delete[0=ptr]", "sumtree.ptr.rightSibling|sumtree.ptr.leftSibling", "the neighbours of an emptied node are located before it is deleted (afterwards the iterator no longer starts at it)")
+	c.OnlyWhen(N+"rightSibling", "cosmos-db.Iterator.Next", "sumtree.ptr.exists(ptr)", "the right-sibling scan skips its first entry only when that entry is the node itself")
+	c.OnlyWhen(N+"rightSibling", "sumtree.ptrIterator.ptr", "cosmos-db.Iterator.Valid(_)", "…and yields a sibling only from a valid iterator")
 	c.FailsWhen(N+"pull", "not(sumtree.Node.find(sumtree.ptr.node(ptr),key)#1)", "pulling a key the node does not hold is a loud error", rules.GuardOpt{Conditional: true})
 	c.CallArg(N+"pull", "sumtree.Node.delete", 1, "sumtree.Node.find(sumtree.ptr.node(ptr),key)#0", "the child removed is the one found for the key")
 	// push: split position and the keys under which the halves are filed
